@@ -138,6 +138,14 @@ def correspondence(ctx):
         # HC_phi_comp, with the MPC/MPD values the code itself computes handed to the model
         nch = rng.randint(2, 4)
         phi = g.standard_normal((rows, cols, nch)) + 1j * g.standard_normal((rows, cols, nch)) * rng.choice([0.0, 0.1, 1.0])
+        if rng.random() < 0.4:
+            # exactly collinear shapes (a complex multiple of a small-integer real vector): MPC is 1 up to a few ulp on
+            # either side, MPD is 0 up to rounding
+            for i in range(rows):
+                for j in range(cols):
+                    if g.random() < 0.5:
+                        phi[i, j, :] = complex(g.integers(-4, 5), g.integers(1, 5)) * g.integers(1, 4, nch) * g.choice([-1, 1], nch)
+            ctx.count("hc_phi_exactly_collinear_cells")
         nanmask = g.random((rows, cols)) < 0.2
         phi[nanmask, :] = np.nan
         # includes the boundary values of the documented ranges (0, 1, pi/2), which a 'falsy means default' shortcut would change
@@ -454,6 +462,9 @@ def oracle(ctx, scale):
                 continue
             if k == 0 and cls == "SSIdat":
                 ctx.sample({"class": cls, "hc": hc})
+    _oracle_collinear(ctx, scale)
+    if ctx.violations:
+        return
     # function-level edge of the covariance criterion: a variance that is exactly zero passes
     from pyoma2.functions import gen
 
@@ -468,11 +479,54 @@ def oracle(ctx, scale):
         )
 
 
+def _collinear_table(seed, rows, cols, nch):
+    g = np.random.default_rng(seed)
+    phi = np.empty((rows, cols, nch), complex)
+    for i in range(rows):
+        for j in range(cols):
+            phi[i, j, :] = complex(g.integers(-4, 5), g.integers(1, 5)) * g.integers(1, 4, nch) * g.choice([-1, 1], nch)
+    return phi
+
+
+def _oracle_collinear(ctx, scale):
+    """function level: a pole whose shape is a complex multiple of a real vector has MPC 1 and MPD 0: it is kept by the
+    mode-shape criteria for every limit strictly inside the ranges (limits as plain Python floats, as the classes pass)"""
+    from pyoma2.functions import gen
+
+    rng = ctx.rng
+    for _ in range(ctx.n(40, 400) * scale):
+        rows, cols, nch = rng.randint(2, 8), rng.randint(1, 5), rng.randint(2, 5)
+        seed = rng.getrandbits(40)
+        phi = _collinear_table(seed, rows, cols, nch)
+        mpc_lim = float(rng.choice([0.7, 0.5, 0.9, 0.99, rng.uniform(0.1, 0.99)]))
+        mpd_lim = float(rng.choice([0.3, 0.1, 1.0, rng.uniform(0.01, 1.5)]))
+        m3, m4 = gen.HC_phi_comp(phi.copy(), mpc_lim, mpd_lim)
+        ctx.oracle_cases += 1
+        ctx.count("oracle_collinear_tables")
+        m3, m4 = np.asarray(m3).astype(bool), np.asarray(m4).astype(bool)
+        if m3.shape != (rows, cols) or m4.shape != (rows, cols) or not (m3.all() and m4.all()):
+            bad = np.argwhere(~(m3 & m4)) if m3.shape == (rows, cols) == m4.shape else []
+            ctx.violation(
+                "collinear-shape-rejected",
+                f"gen.HC_phi_comp rejects {len(bad)} of {rows * cols} poles whose shapes are complex multiples of real vectors (MPC = 1, MPD = 0) "
+                f"with mpc_lim={mpc_lim}, mpd_lim={mpd_lim}",
+                {"table_seed": seed, "rows": rows, "cols": cols, "nch": nch, "mpc_lim": mpc_lim, "mpd_lim": mpd_lim},
+                observed=[[int(a), int(b)] for a, b in bad][:10], expected="all kept",
+            )
+            return
+
+
 def replay(rec):
     from pyoma2.functions import gen
 
     v = rec["violation"]
     print("replaying", v["sig"], "-", v["what"])
+    if v["sig"] == "collinear-shape-rejected":
+        i = v["input"]
+        phi = _collinear_table(i["table_seed"], i["rows"], i["cols"], i["nch"])
+        m3, m4 = gen.HC_phi_comp(phi, i["mpc_lim"], i["mpd_lim"])
+        print("MPD mask:", np.asarray(m3).astype(int).tolist(), "MPC mask:", np.asarray(m4).astype(int).tolist())
+        return 0 if (np.asarray(m3).all() and np.asarray(m4).all()) else 1
     if v["sig"] == "cov-zero-blanked":
         t = np.array(v["input"]["Fn_cov"], float)
         print(gen.HC_cov(t, v["input"]["max_cov"]))
